@@ -565,9 +565,7 @@ impl<'a, Editor> CommandRunner<'a, Editor> {
                             trim_lines: true,
                         },
                     )
-                    .map_err(|err| {
-                        CommandError::Runtime(Box::new(ctx.interpreter.runtime_error(*err)))
-                    })?;
+                    .map_err(|err| CommandError::Runtime(Box::new(ctx.runtime_error(*err))))?;
 
                 if let Some(print_fn) = self.print_markup.as_mut() {
                     let markup = m::text("successfully saved session history to")
